@@ -9,7 +9,7 @@ from vlib.runner import Ctx, Failure
 
 LEVEL = "exploration"
 RULE = (
-    "Hypothesis-generated EPR calls: role x API (create_keep[_with_info], create_measure, create_rsp, recv_keep[_with_info], "
+    "Hypothesis-generated EPR calls: role x API (create_keep[_with_info], create_measure, create_rsp, create_context, recv_context, recv_keep[_with_info], "
     "recv_measure, recv_rsp[_with_info]) x pairs 1..4 x time_unit (all members) / max_time x named bases / rotation triples "
     "0..31 / random-basis sets (all members, both sides) x socket ids x remote node x hardware {generic, NV} x sequential+"
     "post-routine; responses with pairwise different field values.  Oracle: the LinkLayerCreate seen by a recording stack "
@@ -22,8 +22,8 @@ ASSUMPTIONS = [
 ]
 SHARDS = {"quick": 2, "thorough": 16}
 
-CREATE_APIS = ["create_keep", "create_keep_with_info", "create_measure", "create_rsp", "create:K", "create:M", "create:R"]
-RECV_APIS = ["recv_keep", "recv_keep_with_info", "recv_measure", "recv_rsp", "recv_rsp_with_info", "recv:K", "recv:M", "recv:R"]
+CREATE_APIS = ["create_keep", "create_keep_with_info", "create_measure", "create_rsp", "create:K", "create:M", "create:R", "create_context"]
+RECV_APIS = ["recv_keep", "recv_keep_with_info", "recv_measure", "recv_rsp", "recv_rsp_with_info", "recv:K", "recv:M", "recv:R", "recv_context"]
 # "create:X" / "recv:X" are the deprecated generic entry points EPRSocket.create(tp=...) / EPRSocket.recv(tp=...)
 CANON = {"create:K": "create_keep", "create:M": "create_measure", "create:R": "create_rsp", "recv:K": "recv_keep", "recv:M": "recv_measure", "recv:R": "recv_rsp"}
 
@@ -68,6 +68,11 @@ def st_case(draw):
                 elif m == "random":
                     kw["random_basis_" + side] = draw(st.sampled_from([b.name for b in RandomBasis]))
         if api in ("create_keep", "create_keep_with_info") and draw(st.integers(0, 4)) == 0:
+            kw["sequential"] = True
+        if api == "create_context" and draw(st.booleans()):
+            kw["sequential"] = True
+    elif api == "recv_context":
+        if draw(st.booleans()):
             kw["sequential"] = True
     else:
         if draw(st.integers(0, 1)):
@@ -122,7 +127,8 @@ def check(case) -> Dict[str, Any]:
         else:
             kw[k] = v
     outcomes_arr = None
-    if kw.get("sequential"):
+    is_ctx = api in ("create_context", "recv_context")
+    if kw.get("sequential") and not is_ctx:
         outcomes_arr = conn.new_array(number)
 
         def post(c, q, pair):
@@ -139,11 +145,17 @@ def check(case) -> Dict[str, Any]:
             else:
                 kw.pop("expect_phi_plus", None)
                 result = sock.recv(number=number, tp=tp, **kw)
+        elif is_ctx:
+            # the context-manager entry points: the body runs once per pair on that pair's qubit
+            outcomes_arr = conn.new_array(number)
+            with getattr(sock, api)(number=number, **kw) as (q, pair):
+                q.measure(future=outcomes_arr.get_future_index(pair))
+            result = None
         else:
             result = getattr(sock, api)(number=number, **kw)
     except ValueError as e:
         return {"rejected": f"ValueError: {str(e)[:60]}"}
-    tp = "K" if api in ("create_keep", "create_keep_with_info", "recv_keep", "recv_keep_with_info", "recv_rsp", "recv_rsp_with_info") else "M"
+    tp = "K" if api in ("create_keep", "create_keep_with_info", "recv_keep", "recv_keep_with_info", "recv_rsp", "recv_rsp_with_info", "create_context", "recv_context") else "M"
     fields = []
     for i, r in enumerate(case["responses"]):
         f = {k: v for k, v in r.items() if k != "bell_as_enum"}
@@ -167,7 +179,7 @@ def check(case) -> Dict[str, Any]:
         if len(stack.requests) != 1:
             raise Failure(f"request-count:{api}", case, f"stack received {len(stack.requests)} requests")
         req = stack.requests[0]
-        rtype = {"create_keep": "K", "create_keep_with_info": "K", "create_measure": "M", "create_rsp": "R"}[api]
+        rtype = {"create_keep": "K", "create_keep_with_info": "K", "create_measure": "M", "create_rsp": "R", "create_context": "K"}[api]
         want = dict(zip(LinkLayerCreate._fields, LinkLayerCreate.__new__.__defaults__))
         want.update(remote_node_id=remote_id, purpose_id=case["socket_id"], type=RequestType[rtype], number=number)
         mt = kw.get("max_time", 0)
@@ -223,7 +235,12 @@ def check(case) -> Dict[str, Any]:
         if g != w:
             raise Failure(f"result:{what}", case, f"{api}: pair {i}: {what} reads {g!r}, link-layer response {i} has {w!r}")
 
-    if tp == "K":
+    if is_ctx:
+        # no per-pair handles besides the qubit: every delivered qubit was consumed by the body of its own iteration
+        measured = [e for e in getattr(ctrl._executor, "events", []) if e[0] == "meas"]
+        if len(measured) != number or len(delivered) != number:
+            raise Failure("result:context-iterations", case, f"{api}: the context body measured {len(measured)} qubits for {number} pairs ({len(delivered)} responses delivered)")
+    elif tp == "K":
         if api.endswith("with_info"):
             qubits, infos = result
         else:
